@@ -140,8 +140,8 @@ def judge(ctx: Any, label: str, data: bytes) -> str:
     ctx.count("outcome_" + (outcome if not outcome.startswith("raises-") else "other-exception"))
     ctx.distinct((svc, label, min(n, 48), outcome))
     if outcome not in ("step-budget", "incomplete", "incomplete-bad") and n >= 1:
-        # all five tails for valid frames, two for the structured hostile ones, one for every 4th (quick) / 2nd of the rest
-        n_tails = 5 if label == "valid" else (2 if label in _TWO_TAILS else int(ctx.evaluations % ctx.scale(4, 2) == 0))
+        # all five tails for valid frames, one (quick) / two for the structured hostile ones, one for every 8th (quick) / 2nd of the rest
+        n_tails = 5 if label == "valid" else (ctx.scale(1, 2) if label in _TWO_TAILS else int(ctx.evaluations % ctx.scale(8, 2) == 0))
         if n_tails or (n >= 6 and data[0] == 6 and 6 <= data[4] * 256 + data[5] < n):
             _tail_invariance(ctx, label, data, res, n_tails)
     return outcome
